@@ -15,7 +15,8 @@ RULE = (
     "generated `with` statements: 1-7 modifiers drawn (with repetition) from dagger / dagger() / power(p_i) / control over 1, 2 "
     "or 3 distinct qubits / control over a qubit array, around bodies of 0-3 calls that capture qubits and classical values "
     "in varying order; lowered with the real compiler; extracted from the Hugr: the chain of tket.modifier ops between "
-    "LoadFunc and CallIndirect (names, control arities, which function parameter feeds each power), the source parameters "
+    "LoadFunc and CallIndirect (names, control arities, which function parameter feeds each power), for every control array "
+    "which parameter sits at each element position going in and to which parameter each element is handed back, the source parameters "
     "of every CallIndirect input, the destination of every CallIndirect output, the calls inside the __WithBlock__ "
     "function and which outer variable reaches each of their arguments; every CallIndirect input list is compared with its "
     "function value's type and every FuncDefn's yielded outputs with its declaration.  A second family captures affine "
@@ -45,7 +46,7 @@ MANIFEST = {
     "order, control arities, power operands, dagger parity preserved), equiv_iff_projections and equiv_iff_emit_eq (the congruence is "
     "exactly 'same projections'; the emission is its normal form), captures_threaded (call arguments match the modified function's "
     "input types position by position, outputs go back to the places they came from, captured variables are stably partitioned "
-    "non-copyable first), d17_old_order_mismatch.  Tied to /repo (T-obj) by lowering generated modifier stacks with the real "
+    "non-copyable first), control_qubits_returned (element level: every control variable names its own wire again), pop_order_permutes, d17_old_order_mismatch.  Tied to /repo (T-obj) by lowering generated modifier stacks with the real "
     "compiler and extracting op chain and wiring from the Hugr.",
     "level_note": "partial: the statement's 'one operation per modifier in source order' is read modulo the congruence (the code cancels "
     "dagger pairs and groups by kind); run-time behaviour of tket.modifier ops is assumed. Model is of the repaired "
@@ -240,8 +241,41 @@ def extract(h):
         p = src_of(n, 0)
     chain.reverse()  # application order, innermost first
 
+    def elems_in(s):
+        """the control array passed at a call input, element by element: which function parameter sits at position i
+        (`new_array` packs its inputs in order); a whole array parameter is one element"""
+        assert name(s.node).endswith("to_array"), name(s.node)
+        a = src_of(s.node, 0)
+        if name(a.node).endswith("new_array"):
+            out = []
+            for i in range(h.num_in_ports(a.node)):
+                (v,) = back(src_of(a.node, i))
+                out.append(v)
+            return out
+        (v,) = back(a)
+        return [v]
+
+    def elems_out(port):
+        """the control array returned at a call output, element by element: to which in-out parameter of the enclosing
+        function position i is handed back (`unpack` yields the elements in order)"""
+        (t,) = list(h.linked_ports(port))
+        assert name(t.node).endswith("from_array"), name(t.node)
+        nxt = list(h.linked_ports(t.node.out(0)))
+        if len(nxt) == 1 and name(nxt[0].node).endswith("unpack"):
+            u = nxt[0].node
+            out = []
+            for i in range(h.num_out_ports(u)):
+                if list(h.linked_ports(u.out(i))):
+                    (v,) = fwd(u.out(i))
+                    out.append(v)
+            return out
+        (v,) = fwd(t.node.out(0))
+        return [v]
+
     nargs = h.num_in_ports(call) - 1
     nctrl = sum(1 for c in chain if c[0] == "c")
+    ctrl_elems_in = [elems_in(src_of(call, i)) for i in range(1, 1 + nctrl)]
+    ctrl_elems_out = [elems_out(call.out(i)) for i in range(nctrl)]
     args = []
     for i in range(1, 1 + nargs):
         s = src_of(call, i)
@@ -288,6 +322,7 @@ def extract(h):
             body_calls.append((tgt, vs))
     wfn_outs_of_test = None
     return {"chain": chain, "args": args, "outs": outs, "body": body_calls, "typing": typing_problems(h)[0],
+            "ctrl_elems_in": ctrl_elems_in, "ctrl_elems_out": ctrl_elems_out,
             "outer_body_calls": [c for c in h.children(block) if isinstance(h[c].op, ops.Call)]}
 
 
@@ -672,9 +707,12 @@ def tie(ctx):
         lines.append("(emit " + " ".join(mod_sx(c)) + ")")
         vs = " ".join(f"({PNAMES.index(n)} {int(cp)})" for n, cp in (captured or []))
         lines.append(f"(call ({' '.join(mod_sx(c))}) ({vs}))")
+        ctrls = [[PNAMES.index(f"c{i}") for i in m[1]] if m[0] == "c" else [PNAMES.index("ca")]
+                 for m in c["mods"] if m[0] in ("c", "ca")]
+        lines.append("(unpack " + " ".join("(" + " ".join(map(str, q)) + ")" for q in ctrls) + ")")
     replies = ctx.driver(DRIVER, lines)
     for k, (c, (ex, src, captured, err)) in enumerate(zip(cs, reals)):
-        m_emit, m_call = replies[2 * k], replies[2 * k + 1]
+        m_emit, m_call, m_unpack = replies[3 * k], replies[3 * k + 1], replies[3 * k + 2]
         key = "case:" + json.dumps(c, sort_keys=True)
         kinds = [m[0] if m[0] != "ca" else "c" for m in c["mods"]]
         nontrivial = (len(kinds) >= 2 and len(set(kinds)) >= 2) or len(kinds) != len(set(kinds))
@@ -713,6 +751,15 @@ def tie(ctx):
                 bad.append(f"call input {j + 1} is {a}, the function type expects an array of {want_arity} qubits")
         if sorted(map(sorted, (a[1] for a in ctrl_args if a[0] == "ctrl"))) != sorted(map(sorted, sets)):
             bad.append(f"control arrays {[sorted(a[1]) for a in ctrl_args]} are not the source control lists {[sorted(s) for s in sets]}")
+        # element level: the i-th listed qubit of a control is element i of its array, and element i of the returned
+        # array goes back to the same variable (a wire must return to the variable it was taken from)
+        src_lists = [[f"c{i}" for i in m[1]] if m[0] == "c" else ["ca"] for m in c["mods"] if m[0] in ("c", "ca")]
+        want_elems = list(reversed(src_lists))        # the last control's array comes first
+        if ex["ctrl_elems_in"] != want_elems:
+            bad.append(f"control arrays are packed as {ex['ctrl_elems_in']}, the source lists {want_elems} (last control first)")
+        if ex["ctrl_elems_out"] != ex["ctrl_elems_in"]:
+            bad.append(f"control qubits are handed back to {ex['ctrl_elems_out']} but were taken from {ex['ctrl_elems_in']}: "
+                       "after the block the variables name each other's wires")
         caps = [a[1] for a in ex["args"][K:]]
         used = []
         for _, vs in c["body"]:
@@ -752,6 +799,10 @@ def tie(ctx):
         m_args, m_outs = [[slot(s) for s in part.split()] for part in (m_call.split("|") + [""])[:2]]
         if m_args != [tuple(a) for a in ex["args"]]:
             ctx.broke(f"correspondence callArgs: model={m_args} real={ex['args']}\n{src}")
+        real_unpack = " | ".join(" ".join(f"{PNAMES.index(v)}<-{PNAMES.index(w)}" for v, w in zip(o, i_))
+                                 for o, i_ in zip(ex["ctrl_elems_out"], ex["ctrl_elems_in"]))
+        if real_unpack != m_unpack:
+            ctx.broke(f"correspondence handBackElems: model=`{m_unpack}` real=`{real_unpack}`\n{src}")
         m_out_sets = [s[1] if s[0] == "ctrl" else frozenset([s[1]]) for s in m_outs]
         if m_out_sets != ex["outs"]:
             ctx.broke(f"correspondence handBack: model={m_out_sets} real={ex['outs']}\n{src}")
